@@ -793,6 +793,16 @@ fn builtin_read_to_string(args: Vec<Rc<Object>>) -> Result<Rc<Object>, String> {
                     Err(e) => Ok(Rc::new(Object::Err(ErrorObj::Utf8(e)))),
                 }
             }
+            FileHandle::Stdin => {
+                let mut result_bytes = Vec::new();
+                if let Err(e) = io::stdin().read_to_end(&mut result_bytes) {
+                    return Ok(Rc::new(Object::Err(ErrorObj::IO(e))));
+                }
+                match String::from_utf8(result_bytes) {
+                    Ok(s) => Ok(Rc::new(Object::Str(s))),
+                    Err(e) => Ok(Rc::new(Object::Err(ErrorObj::Utf8(e)))),
+                }
+            }
             FileHandle::Writer(_) => Err(String::from("cannot read from a writer")),
             _ => Err(String::from("invalid file handle")),
         }
